@@ -550,4 +550,418 @@ theorem step_inv (P : Progs) (hP : WF P) (s : MSys) (hi : Inv s) (c : Choice) (s
         · rename_i a rest htd
           exact exec_inv P hP s hi t a rest hc htd s' evs h
 
+/-! ### whole schedules -/
+
+theorem mstep_eq (P : Progs) (s s' : MSys) (c : Choice) (h : mstep P s c = some s') :
+    ∃ s1 evs, mstepE P s c = some (s1, evs) ∧ s' = { s1 with events := s.events ++ evs } := by
+  unfold mstep at h
+  cases hm : mstepE P s c with
+  | none => rw [hm] at h; cases h
+  | some r =>
+    rw [hm] at h
+    injection h with h
+    exact ⟨r.1, r.2, rfl, h.symm⟩
+
+/-- reachable states: the invariant, and the emitted events are a trace the lock-discipline acceptor accepts -/
+def RInv (s : MSys) : Prop := Inv s ∧ accept Sys.init s.events = some s.lock
+
+theorem rinv_step (P : Progs) (hP : WF P) (s s' : MSys) (c : Choice) (hi : RInv s) (h : mstep P s c = some s') : RInv s' := by
+  obtain ⟨s1, evs, hm, rfl⟩ := mstep_eq P s s' c h
+  obtain ⟨h1, h2⟩ := step_inv P hP s hi.1 c s1 evs hm
+  refine ⟨h1, ?_⟩
+  show accept Sys.init (s.events ++ evs) = some s1.lock
+  rw [accept_append, hi.2]
+  exact h2
+
+theorem rinv_init (P : Progs) (hP : WF P) (born : Tid → Bool) : RInv (MSys.init P born) := by
+  refine ⟨⟨by simp [MSys.init], ?_, ?_, ?_⟩, rfl⟩
+  · intro t
+    have : ((MSys.init P born).tasks t).phase.out = true := by
+      simp only [MSys.init]; split
+      · exact (start_ok (P t) (hP t)).2
+      · rfl
+    constructor
+    · intro e; rw [e] at this; cases this
+    · intro e; cases e
+  · intro t
+    have : ((MSys.init P born).tasks t).phase.out = true := by
+      simp only [MSys.init]; split
+      · exact (start_ok (P t) (hP t)).2
+      · rfl
+    constructor
+    · intro e; rw [e] at this; cases this
+    · intro e; simp [MSys.init] at e
+  · intro t
+    simp only [MSys.init]; split
+    · exact (start_ok (P t) (hP t)).1
+    · simp only [PhaseOk]
+
+theorem rinv_run (P : Progs) (hP : WF P) (cs : List Choice) (s s' : MSys) (hi : RInv s) (h : mrun P s cs = some s') : RInv s' := by
+  induction cs generalizing s with
+  | nil => simp only [mrun] at h; injection h with h; subst h; exact hi
+  | cons c cs ih =>
+    simp only [mrun] at h
+    cases hm : mstep P s c with
+    | none => rw [hm] at h; cases h
+    | some s1 => rw [hm] at h; exact ih s1 (rinv_step P hP s s1 c hi hm) h
+
+theorem mrun_append (P : Progs) (s : MSys) (a b : List Choice) :
+    mrun P s (a ++ b) = (mrun P s a).bind fun s' => mrun P s' b := by
+  induction a generalizing s with
+  | nil => rfl
+  | cons c cs ih =>
+    simp only [List.cons_append, mrun]
+    cases mstep P s c with
+    | none => rfl
+    | some s' => exact ih s'
+
+/-! ### the programs of the real callers are bracketed -/
+
+theorem wfIn_io_release (l : List OpX) : wfIn true (l.map Act.io ++ [Act.release]) = true := by
+  induction l with
+  | nil => rfl
+  | cons o r ih => simp [wfIn, ih]
+
+theorem request_acts (c : CfgX) (io : Script) :
+    (requestX c io).trace.map Act.ofReq = .acquire :: ((runX c io).trace.map Act.io ++ [.release]) := by
+  simp [requestX, Act.ofReq, List.map_append, Function.comp_def]
+
+theorem request_wf (c : CfgX) (r : UdsReq.Req) (io : Script) : wfIn false (Round.request c r io).acts = true := by
+  show wfIn false ((requestX c io).trace.map Act.ofReq) = true
+  rw [request_acts]; simp only [wfIn]; exact wfIn_io_release _
+
+theorem reconnect_wf (res : RcEv) : wfIn false (Round.reconnect res).acts = true := by simp [Round.reconnect, wfIn]
+
+theorem sleep_wf (d : Nat) : wfIn false (Round.sleep d).acts = true := by simp [Round.sleep, wfIn, wireKind]
+
+theorem worker_wf (iv : Nat) (c : CfgX) (io : Script) : wfIn false (Round.worker iv c io).acts = true := by
+  show wfIn false (.io (.sl iv) :: (requestX (workerCfg c) io).trace.map Act.ofReq) = true
+  rw [request_acts]; simp only [wfIn, wireKind, Option.isNone_none, Bool.or_true, Bool.true_and]; exact wfIn_io_release _
+
+theorem startWorker_wf (w : Tid) : wfIn false (Round.startWorker w).acts = true := by simp [Round.startWorker, wfIn, wireKind]
+theorem stopWorker_wf (w : Tid) : wfIn false (Round.stopWorker w).acts = true := by simp [Round.stopWorker, wfIn]
+
+theorem seq_wf (rs : List Round) (h : ∀ r ∈ rs, wfIn false r.acts = true) (n : Nat) : wfIn false ((Prog.seq rs).round n).acts = true := by
+  show wfIn false (rs.getD n (Round.sleep 0)).acts = true
+  by_cases hn : n < rs.length
+  · have : rs.getD n (Round.sleep 0) = rs[n] := by simp [List.getD, hn]
+    rw [this]; exact h _ (List.getElem_mem hn)
+  · have : rs.getD n (Round.sleep 0) = Round.sleep 0 := by simp only [List.getD]; rw [List.getElem?_eq_none (by omega)]; rfl
+    rw [this]; exact sleep_wf 0
+
+/-- the calls gallia's tasks are made of -/
+def KnownRound (r : Round) : Prop :=
+  (∃ c q io, r = Round.request c q io) ∨ (∃ res, r = Round.reconnect res) ∨ (∃ d, r = Round.sleep d) ∨
+  (∃ iv c io, r = Round.worker iv c io) ∨ (∃ w, r = Round.startWorker w) ∨ (∃ w, r = Round.stopWorker w)
+
+/-- the tasks of the real system: a caller of `request()`, a caller of `reconnect()`, the tester-present worker, or a task
+    that performs any sequence of such calls incl. `start_cyclic_tester_present` / `stop_cyclic_tester_present` -/
+def RealProg (p : Prog) : Prop :=
+  (∃ c q io, p = Prog.request c q io) ∨ (∃ res, p = Prog.reconnect res) ∨ (∃ iv c ios, p = Prog.worker iv c ios) ∨
+  (∃ rs, p = Prog.seq rs ∧ ∀ r ∈ rs, KnownRound r)
+
+theorem knownRound_wf (r : Round) (h : KnownRound r) : wfIn false r.acts = true := by
+  rcases h with ⟨c, q, io, rfl⟩ | ⟨res, rfl⟩ | ⟨d, rfl⟩ | ⟨iv, c, io, rfl⟩ | ⟨w, rfl⟩ | ⟨w, rfl⟩
+  · exact request_wf c q io
+  · exact reconnect_wf res
+  · exact sleep_wf d
+  · exact worker_wf iv c io
+  · exact startWorker_wf w
+  · exact stopWorker_wf w
+
+theorem real_wf (P : Progs) (h : ∀ t, RealProg (P t)) : WF P := by
+  intro t n
+  rcases h t with ⟨c, q, io, e⟩ | ⟨res, e⟩ | ⟨iv, c, ios, e⟩ | ⟨rs, e, hk⟩ <;> rw [e]
+  · exact request_wf c q io
+  · exact reconnect_wf res
+  · exact worker_wf iv c (ios n)
+  · exact seq_wf rs (fun r hr => knownRound_wf r (hk r hr)) n
+
+/-! ### a task that is done stays done, and nobody else's step changes a task except by `spawn` / `stop` -/
+
+theorem exec_done_other (P : Progs) (s : MSys) (t : Tid) (ts : TState) (a : Act) (s' : MSys) (evs : List Event)
+    (h : exec P s t ts a = some (s', evs)) (u : Tid) (hu : u ≠ t) (hd : (s.tasks u).phase = .done) :
+    s'.tasks u = s.tasks u := by
+  cases a with
+  | acquire =>
+    simp only [exec] at h; injection h with h; injection h with h1 h2; subst h1
+    simp [MSys.setTask, hu]
+  | release =>
+    simp only [exec] at h
+    split at h
+    · injection h with h; injection h with h1 h2; subst h1; simp [MSys.setTask, hu]
+    · injection h with h; injection h with h1 h2; subst h1; simp [MSys.setTask, hu]
+  | io o =>
+    cases o with
+    | rd k tmo d =>
+      simp only [exec] at h
+      split at h
+      · cases h
+      · injection h with h; injection h with h1 h2; subst h1; simp [MSys.setTask, hu]
+    | wr a r d => simp only [exec] at h; injection h with h; injection h with h1 h2; subst h1; simp [MSys.setTask, hu]
+    | sl d => simp only [exec] at h; injection h with h; injection h with h1 h2; subst h1; simp [MSys.setTask, hu]
+    | rc r => simp only [exec] at h; injection h with h; injection h with h1 h2; subst h1; simp [MSys.setTask, hu]
+  | spawn w =>
+    simp only [exec] at h
+    split at h
+    · cases h
+    · injection h with h; injection h with h1 h2; subst h1
+      simp only [MSys.setTask, hu, if_false]
+      split
+      · rename_i hw
+        by_cases huw : u = w
+        · subst huw; rw [hd] at hw; cases hw
+        · simp [huw]
+      · rfl
+  | stop w =>
+    simp only [exec] at h
+    split at h
+    · cases h
+    · injection h with h; injection h with h1 h2; subst h1
+      simp only [MSys.setTask, hu, if_false]
+      split
+      · rfl
+      · rename_i hw
+        by_cases huw : u = w
+        · subst huw; exact absurd hd hw
+        · simp [huw]
+  | join w =>
+    simp only [exec] at h
+    split at h
+    · injection h with h; injection h with h1 h2; subst h1; simp [MSys.setTask, hu]
+    · cases h
+
+/-- a task that has ended is never touched again -/
+theorem done_stays (P : Progs) (s s' : MSys) (c : Choice) (h : mstep P s c = some s') (u : Tid)
+    (hd : (s.tasks u).phase = .done) : s'.tasks u = s.tasks u := by
+  obtain ⟨s1, evs, hm, rfl⟩ := mstep_eq P s s' c h
+  show s1.tasks u = s.tasks u
+  cases c with
+  | deliver b => simp only [mstepE] at hm; injection hm with hm; injection hm with h1 h2; subst h1; rfl
+  | cancel t =>
+    have hu : u ≠ t := by
+      rintro rfl; simp only [mstepE, hd] at hm; cases hm
+    simp only [mstepE] at hm
+    split at hm
+    · cases hm
+    all_goals (injection hm with hm; injection hm with h1 h2; subst h1; simp [MSys.setTask, hu])
+  | run t =>
+    have hu : u ≠ t := by
+      rintro rfl; simp only [mstepE, hd] at hm; split at hm <;> cases hm
+    simp only [mstepE] at hm
+    split at hm
+    · cases hm
+    · split at hm
+      · cases hm
+      · cases hm
+      · split at hm
+        · split at hm
+          · injection hm with hm; injection hm with h1 h2; subst h1; simp [MSys.setTask, hu]
+          · cases hm
+        · cases hm
+      all_goals
+        split at hm
+        · injection hm with hm; injection hm with h1 h2; subst h1; simp [MSys.setTask, hu]
+        · exact exec_done_other P s t _ _ s1 evs hm u hu hd
+
+theorem done_forever (P : Progs) (cs : List Choice) (s s' : MSys) (h : mrun P s cs = some s') (u : Tid)
+    (hd : (s.tasks u).phase = .done) : s'.tasks u = s.tasks u := by
+  induction cs generalizing s with
+  | nil => simp only [mrun] at h; injection h with h; subst h; rfl
+  | cons c cs ih =>
+    simp only [mrun] at h
+    cases hm : mstep P s c with
+    | none => rw [hm] at h; cases h
+    | some s1 =>
+      rw [hm] at h
+      have e := done_stays P s s1 c hm u hd
+      rw [ih s1 h (by rw [e]; exact hd), e]
+
+/-! ### single decisions, computed -/
+
+theorem cancel_waiting_step (P : Progs) (s : MSys) (t : Tid) (hp : (s.tasks t).phase = .waiting) :
+    ∃ s', mstep P s (.cancel t) = some s' ∧ s'.lock.holder = s.lock.holder ∧
+      s'.lock.waiters = s.lock.waiters.filter (· ≠ t) ∧ (s'.tasks t).phase = .done ∧
+      (∀ u, u ≠ t → s'.tasks u = s.tasks u) ∧ s'.inbox = s.inbox ∧ s'.log = s.log := by
+  cases hm : mstep P s (.cancel t) with
+  | none => simp [mstep, mstepE, hp] at hm
+  | some s' =>
+    simp only [mstep, mstepE, hp, Option.map] at hm
+    injection hm with hm; subst hm
+    refine ⟨_, rfl, rfl, rfl, by simp [MSys.setTask], ?_, rfl, rfl⟩
+    intro u hu; simp [MSys.setTask, hu]
+
+theorem cancel_holding_step (P : Progs) (s : MSys) (t : Tid) (hp : (s.tasks t).phase = .holding) :
+    ∃ s', mstep P s (.cancel t) = some s' ∧ s'.lock.holder = none ∧ s'.lock.waiters = s.lock.waiters ∧
+      (s'.tasks t).phase = .done ∧ (∀ u, u ≠ t → s'.tasks u = s.tasks u) ∧ s'.inbox = s.inbox ∧ s'.log = s.log := by
+  cases hm : mstep P s (.cancel t) with
+  | none => simp [mstep, mstepE, hp] at hm
+  | some s' =>
+    simp only [mstep, mstepE, hp, Option.map] at hm
+    injection hm with hm; subst hm
+    refine ⟨_, rfl, rfl, rfl, by simp [MSys.setTask], ?_, rfl, rfl⟩
+    intro u hu; simp [MSys.setTask, hu]
+
+theorem cancel_out_step (P : Progs) (s : MSys) (t : Tid) (hp : (s.tasks t).phase = .idle ∨ (s.tasks t).phase = .unborn) :
+    ∃ s', mstep P s (.cancel t) = some s' ∧ s'.lock = s.lock ∧
+      (s'.tasks t).phase = .done ∧ (∀ u, u ≠ t → s'.tasks u = s.tasks u) ∧ s'.inbox = s.inbox ∧ s'.log = s.log := by
+  cases hm : mstep P s (.cancel t) with
+  | none => rcases hp with hp | hp <;> simp [mstep, mstepE, hp] at hm
+  | some s' =>
+    rcases hp with hp | hp
+    all_goals
+      simp only [mstep, mstepE, hp, Option.map] at hm
+      injection hm with hm; subst hm
+      refine ⟨_, rfl, rfl, by simp [MSys.setTask], ?_, rfl, rfl⟩
+      intro u hu; simp [MSys.setTask, hu]
+
+theorem grant_step (P : Progs) (s : MSys) (w : Tid) (ws : List Tid) (hp : (s.tasks w).phase = .waiting)
+    (hs : (s.tasks w).stopReq = false) (hh : s.lock.holder = none) (hw : s.lock.waiters = w :: ws) :
+    ∃ s', mstep P s (.run w) = some s' ∧ s'.lock = { holder := some w, waiters := ws } ∧
+      (s'.tasks w).phase = .holding ∧ (∀ u, u ≠ w → s'.tasks u = s.tasks u) ∧ s'.log = s.log := by
+  cases hm : mstep P s (.run w) with
+  | none => simp [mstep, mstepE, hp, hs, hh, hw] at hm
+  | some s' =>
+    simp only [mstep, mstepE, hp, hs, hh, hw, Option.map] at hm
+    simp at hm; subst hm
+    refine ⟨_, rfl, rfl, by simp [MSys.setTask], ?_, rfl⟩
+    intro u hu; simp [MSys.setTask, hu]
+
+theorem settle_cons (p : Prog) (t : Tid) (ts : TState) (a : Act) (rest : List Act) (h : ts.todo = a :: rest) :
+    settle p t ts = (ts, []) := by
+  unfold settle; rw [h]
+
+theorem release_step (P : Progs) (s : MSys) (t u0 : Tid) (rest : List Act)
+    (hp : (s.tasks t).phase = .idle ∨ (s.tasks t).phase = .holding) (hs : (s.tasks t).stopReq = false)
+    (htodo : (s.tasks t).todo = .release :: rest) (hh : s.lock.holder = some u0) :
+    ∃ s', mstep P s (.run t) = some s' ∧ s'.lock.holder = none ∧ s'.lock.waiters = s.lock.waiters ∧
+      (∀ u, u ≠ t → s'.tasks u = s.tasks u) := by
+  cases hm : mstep P s (.run t) with
+  | none => rcases hp with hp | hp <;> simp [mstep, mstepE, hp, hs, htodo, exec, hh] at hm
+  | some s' =>
+    rcases hp with hp | hp
+    all_goals
+      simp only [mstep, mstepE, hp, hs, htodo, exec, hh, Option.map] at hm
+      simp at hm; subst hm
+      refine ⟨_, rfl, rfl, rfl, ?_⟩
+      intro u hu; simp [MSys.setTask, hu]
+
+theorem stopped_silent (P : Progs) (s : MSys) (w : Tid) (h : (s.tasks w).stopReq = true) : mstep P s (.run w) = none := by
+  simp [mstep, mstepE, h]
+
+theorem stop_step (P : Progs) (s : MSys) (u w : Tid) (rest : List Act) (hne : w ≠ u)
+    (hp : (s.tasks u).phase = .idle) (hs : (s.tasks u).stopReq = false) (htodo : (s.tasks u).todo = .stop w :: .join w :: rest) :
+    ∃ s1, mstep P s (.run u) = some s1 ∧ s1.lock = s.lock ∧ (s1.tasks u).todo = .join w :: rest ∧
+      (s1.tasks u).phase = .idle ∧ (s1.tasks u).stopReq = false ∧
+      ((s.tasks w).phase ≠ .done → (s1.tasks w).stopReq = true ∧ (s1.tasks w).phase = (s.tasks w).phase) ∧
+      ((s.tasks w).phase = .done → s1.tasks w = s.tasks w) := by
+  cases hm : mstep P s (.run u) with
+  | none => simp [mstep, mstepE, hp, hs, htodo, exec, hne] at hm
+  | some s1 =>
+    simp only [mstep, mstepE, hp, hs, htodo, exec, hne, Option.map, if_false, settle] at hm
+    simp at hm; subst hm
+    by_cases hd : (s.tasks w).phase = .done
+    · simp [hd, MSys.setTask, hne]
+    · simp [hd, MSys.setTask, hne]
+
+theorem join_step (P : Progs) (s : MSys) (u w : Tid) (rest : List Act)
+    (hp : (s.tasks u).phase = .idle) (hs : (s.tasks u).stopReq = false) (htodo : (s.tasks u).todo = .join w :: rest)
+    (hd : (s.tasks w).phase = .done) :
+    ∃ s3, mstep P s (.run u) = some s3 ∧ s3.lock = s.lock := by
+  cases hm : mstep P s (.run u) with
+  | none => simp [mstep, mstepE, hp, hs, htodo, exec, hd] at hm
+  | some s3 =>
+    simp only [mstep, mstepE, hp, hs, htodo, exec, hd, Option.map] at hm
+    simp at hm; subst hm
+    exact ⟨_, rfl, rfl⟩
+
+/-! ### the log -/
+
+theorem exec_log (P : Progs) (s : MSys) (t : Tid) (ts : TState) (a : Act) (s' : MSys) (evs : List Event)
+    (h : exec P s t ts a = some (s', evs)) : s'.log = s.log ++ [(t, ts.round, a)] := by
+  cases a with
+  | acquire => simp only [exec] at h; injection h with h; injection h with h1 h2; subst h1; rfl
+  | release =>
+    simp only [exec] at h
+    split at h
+    · injection h with h; injection h with h1 h2; subst h1; rfl
+    · injection h with h; injection h with h1 h2; subst h1; rfl
+  | io o =>
+    cases o with
+    | rd k tmo d =>
+      simp only [exec] at h
+      split at h
+      · cases h
+      · injection h with h; injection h with h1 h2; subst h1; rfl
+    | wr a r d => simp only [exec] at h; injection h with h; injection h with h1 h2; subst h1; rfl
+    | sl d => simp only [exec] at h; injection h with h; injection h with h1 h2; subst h1; rfl
+    | rc r => simp only [exec] at h; injection h with h; injection h with h1 h2; subst h1; rfl
+  | spawn w =>
+    simp only [exec] at h
+    split at h
+    · cases h
+    · injection h with h; injection h with h1 h2; subst h1; rfl
+  | stop w =>
+    simp only [exec] at h
+    split at h
+    · cases h
+    · injection h with h; injection h with h1 h2; subst h1; rfl
+  | join w =>
+    simp only [exec] at h
+    split at h
+    · injection h with h; injection h with h1 h2; subst h1; rfl
+    · cases h
+
+/-- a step appends at most one entry to the log: the await point the running task completes -/
+theorem log_step (P : Progs) (s s' : MSys) (c : Choice) (h : mstep P s c = some s') :
+    s'.log = s.log ∨ ∃ t a rest, c = .run t ∧ (s.tasks t).todo = a :: rest ∧
+      ((s.tasks t).phase = .idle ∨ (s.tasks t).phase = .holding) ∧ s'.log = s.log ++ [(t, (s.tasks t).round, a)] := by
+  obtain ⟨s1, evs, hm, rfl⟩ := mstep_eq P s s' c h
+  show s1.log = s.log ∨ ∃ t a rest, c = .run t ∧ _ ∧ _ ∧ s1.log = _
+  cases c with
+  | deliver b => simp only [mstepE] at hm; injection hm with hm; injection hm with h1 h2; subst h1; exact .inl rfl
+  | cancel t =>
+    simp only [mstepE] at hm
+    split at hm
+    · cases hm
+    all_goals (injection hm with hm; injection hm with h1 h2; subst h1; exact .inl rfl)
+  | run t =>
+    simp only [mstepE] at hm
+    split at hm
+    · cases hm
+    · split at hm
+      · cases hm
+      · cases hm
+      · split at hm
+        · split at hm
+          · injection hm with hm; injection hm with h1 h2; subst h1; exact .inl rfl
+          · cases hm
+        · cases hm
+      all_goals
+        rename_i hp
+        split at hm
+        · injection hm with hm; injection hm with h1 h2; subst h1; exact .inl rfl
+        · rename_i a rest htd
+          exact .inr ⟨t, a, rest, rfl, htd, by simp [hp], exec_log P s t { s.tasks t with todo := rest } a s1 evs hm⟩
+
+/-- a task that has ended puts nothing on the wire any more -/
+theorem ended_task_is_silent (P : Progs) (cs : List Choice) (s s' : MSys) (h : mrun P s cs = some s') (w : Tid)
+    (hd : (s.tasks w).phase = .done) : s'.log.filter (·.1 == w) = s.log.filter (·.1 == w) := by
+  induction cs generalizing s with
+  | nil => simp only [mrun] at h; injection h with h; subst h; rfl
+  | cons c cs ih =>
+    simp only [mrun] at h
+    cases hm : mstep P s c with
+    | none => rw [hm] at h; cases h
+    | some s1 =>
+      rw [hm] at h
+      have e := done_stays P s s1 c hm w hd
+      rw [ih s1 h (by rw [e]; exact hd)]
+      rcases log_step P s s1 c hm with hl | ⟨t, a, rest, _, _, hph, hl⟩
+      · rw [hl]
+      · have hne : t ≠ w := by
+          rintro rfl; rcases hph with q | q <;> (rw [hd] at q; cases q)
+        rw [hl, List.filter_append]
+        simp [hne]
+
 end Gallia.ClientMulti
